@@ -8,7 +8,7 @@
      part 3  the documented form of a whole message, entry by entry; the object schema
      part 4  the generic theorem on Mapping.to_json (any mix of the five annotations)
      part 5  the five codecs (Codec.encode through the conforms theorems)
-     part 6  witnesses: non-vacuity, needed side conditions, and the finding (nullable enum) *)
+     part 6  witnesses: non-vacuity, needed side conditions, and the repaired finding (nullable enum) *)
 From Coq Require Import Lia ZArith List.
 From Sebuf Require Import Conform.
 From SebufProofs Require Import JsonSchemaFacts RulesFacts OpenApiFacts TextFacts CodecTextFacts ProtoJsonFacts CodecExamples MappingFacts ConformFacts.
@@ -37,9 +37,24 @@ Definition empty_null (f : field) : bool := match f_empty f with Some EBNull => 
 Definition sc_plainish (f : field) : bool :=
   negb (ProtoJson.is_int64_kind (f_kind f) && i64_number f) && is_none (f_enumenc f) && is_none (f_bytesenc f) && is_none (f_tsfmt f).
 
+(* kinds nullable = true may sit on: every kind but a message (nullable.go:60-67) - enums included since the repair
+   of nullable-enum-null-not-in-enum *)
+Definition nullable_kind (k : kind) : bool := negb (is_msgk k).
+(* the enum of an enum kind declares a value (protoc and protodesc refuse an enum without values): what puts a
+   non-empty `enum` keyword into the schema for makeNullableSchema to extend *)
+Definition enum_inhabited (sc : schema) (k : kind) : bool :=
+  match k with
+  | KEnum tn => match find_enum (all_enums sc) tn with
+                | Some e => match e_values e with [] => false | _ => true end
+                | None => true end
+  | _ => true
+  end.
+Definition nullable_enums_inhabited (sc : schema) (md : message) : bool :=
+  forallb (fun f => negb (is_nullable f) || enum_inhabited sc (f_kind f)) (m_fields md).
+
 (* the four classes of fields the theorems cover *)
 Definition c6_class_plain (f : field) : bool :=
-  sc_plainish f && (negb (is_nullable f) || (singularish f && is_scalar_kind (f_kind f))).
+  sc_plainish f && (negb (is_nullable f) || (singularish f && nullable_kind (f_kind f))).
 Definition c6_class_i64 (f : field) : bool :=
   ProtoJson.is_int64_kind (f_kind f) && i64_number f && negb (Codec.is_map f) && negb (is_nullable f).
 Definition c6_class_bytes (f : field) : bool :=
@@ -112,7 +127,7 @@ Lemma convert_field_plainish sc mn f : sc_plainish f = true ->
   convert_field sc no_side mn f =
   match f_card f with
   | Repeated | MapOf _ => convert_field sc no_side mn (strip f)
-  | _ => if is_nullable f then add_null_type (elem_node sc (f_kind f))
+  | _ => if is_nullable f then make_nullable (elem_node sc (f_kind f))
          else if OpenApi.is_msg_kind (f_kind f) && empty_null f
               then YMap [(s "oneOf", YSeq [elem_node sc (f_kind f); YMap [(s "type", ystr "null")]])]
               else convert_field sc no_side mn (strip f)
@@ -129,7 +144,7 @@ Qed.
 
 Lemma convert_field_plainish_sing sc mn f : sc_plainish f = true -> singularish f = true ->
   convert_field sc no_side mn f =
-  if is_nullable f then add_null_type (elem_node sc (f_kind f))
+  if is_nullable f then make_nullable (elem_node sc (f_kind f))
   else if OpenApi.is_msg_kind (f_kind f) && empty_null f
        then YMap [(s "oneOf", YSeq [elem_node sc (f_kind f); YMap [(s "type", ystr "null")]])]
        else convert_field sc no_side mn (strip f).
@@ -147,8 +162,68 @@ Qed.
 (* reading the schemas back *)
 Definition null_kws (k : kind) : list keyword :=
   match scalar_kws k with KwType ts :: r => KwType (ts ++ [TNull]) :: r | l => l end.
-Lemma rd_nullable_node sc fu k : is_scalar_kind k = true -> rd fu (add_null_type (elem_node sc k)) = SObj (null_kws k).
+Lemma rd_nullable_node sc fu k : is_scalar_kind k = true -> rd fu (make_nullable (elem_node sc k)) = SObj (null_kws k).
 Proof. destruct k; try discriminate; intros _; reflexivity. Qed.
+
+(* an enum kind: the strings convertEnumField lists (custom enum_value, else the name) *)
+Definition enum_strs (e : enum) : list str :=
+  map (fun v => match ev_custom v with
+                | Some c => match c with [] => ev_name v | _ :: _ => c end
+                | None => ev_name v end) (e_values e).
+Definition enum_node_kws (names : list str) : list keyword :=
+  [KwType [TString]; KwEnum (map (rd_plain reader12) names)].
+Definition null_enum_kws (names : list str) : list keyword :=
+  [KwType [TString; TNull]; KwEnum (map (rd_plain reader12) names ++ [JVNull])].
+
+Lemma rd_enum_node sc fu tn e : find_enum (all_enums sc) tn = Some e ->
+  rd fu (elem_node sc (KEnum tn)) = SObj (enum_node_kws (enum_strs e)).
+Proof.
+  intros He. unfold elem_node, convert_scalar. cbn [f_kind OpenApi.plain_field]. unfold enum_schema.
+  cbn [f_enumenc OpenApi.plain_field]. rewrite He.
+  change (map (fun v => YPlain (match ev_custom v with
+                                | Some c => match c with [] => ev_name v | _ :: _ => c end
+                                | None => ev_name v end)) (e_values e))
+    with (map (fun v => YPlain ((fun v0 => match ev_custom v0 with
+                                | Some c => match c with [] => ev_name v0 | _ :: _ => c end
+                                | None => ev_name v0 end) v)) (e_values e)).
+  rewrite <- (map_map _ YPlain). fold (enum_strs e).
+  rewrite rd_ymap. cbn [map]. rewrite kw_type_string, kw_enum. reflexivity.
+Qed.
+
+(* the repaired makeNullableSchema on an enum field: `null` joins the type list AND the enum list *)
+Lemma rd_nullable_enum_node sc fu tn e : find_enum (all_enums sc) tn = Some e -> enum_inhabited sc (KEnum tn) = true ->
+  rd fu (make_nullable (elem_node sc (KEnum tn))) = SObj (null_enum_kws (enum_strs e)).
+Proof.
+  intros He Hin. cbn [enum_inhabited] in Hin. rewrite He in Hin.
+  unfold elem_node, convert_scalar. cbn [f_kind OpenApi.plain_field]. unfold enum_schema.
+  cbn [f_enumenc OpenApi.plain_field]. rewrite He.
+  change (map (fun v => YPlain (match ev_custom v with
+                                | Some c => match c with [] => ev_name v | _ :: _ => c end
+                                | None => ev_name v end)) (e_values e))
+    with (map (fun v => YPlain ((fun v0 => match ev_custom v0 with
+                                | Some c => match c with [] => ev_name v0 | _ :: _ => c end
+                                | None => ev_name v0 end) v)) (e_values e)).
+  rewrite <- (map_map _ YPlain). fold (enum_strs e).
+  assert (Hne : exists a l, enum_strs e = a :: l).
+  { unfold enum_strs. destruct (e_values e) as [|v r]; [discriminate Hin|]. cbn [map]. eexists. eexists. reflexivity. }
+  destruct Hne as [a [l Hal]]. rewrite Hal.
+  change (make_nullable (YMap [(s "type", ystr "string"); (s "enum", YSeq (map YPlain (a :: l)))]))
+    with (YMap [(s "type", YSeq [YGoStr (s "string"); YGoStr (s "null")]); (s "enum", YSeq (map YPlain (a :: l) ++ [YNull]))]).
+  rewrite rd_ymap. cbn [map]. unfold null_enum_kws. f_equal. f_equal.
+  unfold kw12. cbn [fst snd denote]. f_equal. f_equal.
+  change (YPlain a :: map YPlain l) with (map YPlain (a :: l)).
+  rewrite map_app, map_map. reflexivity.
+Qed.
+Lemma rd_nullable_enum_missing sc fu tn : find_enum (all_enums sc) tn = None ->
+  rd fu (make_nullable (elem_node sc (KEnum tn))) = SObj (null_kws KString).
+Proof.
+  intros He. unfold elem_node, convert_scalar. cbn [f_kind OpenApi.plain_field]. unfold enum_schema. rewrite He. reflexivity.
+Qed.
+Lemma rd_enum_missing sc fu tn : find_enum (all_enums sc) tn = None ->
+  rd fu (elem_node sc (KEnum tn)) = SObj (scalar_kws KString).
+Proof.
+  intros He. unfold elem_node, convert_scalar. cbn [f_kind OpenApi.plain_field]. unfold enum_schema. rewrite He. reflexivity.
+Qed.
 
 Lemma rd_oneof_null fu base :
   rd (S fu) (YMap [(s "oneOf", YSeq [base; YMap [(s "type", ystr "null")]])]) = SObj [KwOneOf [rd fu base; SObj [KwType [TNull]]]].
@@ -223,6 +298,25 @@ Lemma null_kws_valid P cst n k v : is_scalar_kind k = true ->
 Proof. destruct k; try discriminate; intros _; apply validates_add_null. Qed.
 Lemma null_kws_null P cst n k : is_scalar_kind k = true -> validates P cst (S n) (SObj (null_kws k)) JVNull = VOk true.
 Proof. destruct k; try discriminate; intros _; reflexivity. Qed.
+
+(* nullable enum: every value the enum schema admits is still admitted, and so is null *)
+Lemma null_enum_kws_valid P cst n names v :
+  validates P cst (S n) (SObj (enum_node_kws names)) v = VOk true ->
+  validates P cst (S n) (SObj (null_enum_kws names)) v = VOk true.
+Proof.
+  unfold enum_node_kws, null_enum_kws. rewrite !validates_S. cbn [map declared_props flat_map app check_kw]. intros H.
+  apply vall_cons_inv in H as [H1 H2]. apply vall_cons_inv in H2 as [H2 _].
+  injection H1 as H1. injection H2 as H2.
+  apply vall_cons_true; [|apply vall_cons_true; [|reflexivity]].
+  - destruct v; try discriminate H1; reflexivity.
+  - f_equal. rewrite existsb_app. apply Bool.orb_true_iff. left. exact H2.
+Qed.
+Lemma null_enum_kws_null P cst n names : validates P cst (S n) (SObj (null_enum_kws names)) JVNull = VOk true.
+Proof.
+  unfold null_enum_kws. rewrite validates_S. cbn [map declared_props flat_map app check_kw].
+  apply vall_cons_true; [reflexivity|]. apply vall_cons_true; [|reflexivity].
+  f_equal. rewrite existsb_app. cbn [existsb jv_eqb]. now rewrite Bool.orb_true_r.
+Qed.
 
 (* a leaf, or an array of leaves: no object anywhere, so nothing can be undescribed *)
 Definition is_flat (v : jv) : bool := match v with JVObj _ => false | JVArr l => forallb is_leaf l | _ => true end.
@@ -462,27 +556,39 @@ Proof.
   destruct (singularish f) eqn:Es; [|unfold singularish in Es; destruct (f_card f); try discriminate Es; exact Hstrip].
   assert (Hcf : match f_card f with
                 | Repeated | MapOf _ => convert_field sc no_side mn (strip f)
-                | _ => if is_nullable f then add_null_type (elem_node sc (f_kind f))
+                | _ => if is_nullable f then make_nullable (elem_node sc (f_kind f))
                        else if OpenApi.is_msg_kind (f_kind f) && empty_null f
                             then YMap [(s "oneOf", YSeq [elem_node sc (f_kind f); YMap [(s "type", ystr "null")]])]
                             else convert_field sc no_side mn (strip f)
-                end = if is_nullable f then add_null_type (elem_node sc (f_kind f))
+                end = if is_nullable f then make_nullable (elem_node sc (f_kind f))
                       else if OpenApi.is_msg_kind (f_kind f) && empty_null f
                            then YMap [(s "oneOf", YSeq [elem_node sc (f_kind f); YMap [(s "type", ystr "null")]])]
                            else convert_field sc no_side mn (strip f)).
   { unfold singularish in Es. destruct (f_card f); try discriminate Es; reflexivity. }
   rewrite Hcf. clear Hcf.
   destruct (is_nullable f) eqn:En.
-  - (* nullable: type [T, null] *)
-    cbn [negb orb andb] in Hnl.
-    rewrite (rd_nullable_node sc 6 _ Hnl).
+  - (* nullable: type [T, null]; for an enum also enum [names..., null] *)
+    cbn [negb orb andb] in Hnl. unfold nullable_kind in Hnl. apply Bool.negb_true_iff in Hnl.
     assert (Hx : exists sx, x = FS sx /\ wt_scalar sc (f_kind f) sx = true).
-    { apply (wt_nonmsg_scalar sc (f_kind f) x); [destruct (f_kind f); try reflexivity; discriminate Hnl|].
+    { apply (wt_nonmsg_scalar sc (f_kind f) x); [exact Hnl|].
       unfold wt_entry in Hwt. unfold singularish in Es.
       destruct (f_card f); try discriminate Es; destruct x; try discriminate Hwt; try exact Hwt; now apply andb_prop in Hwt as [Hwt _]. }
-    destruct Hx as [sx [-> Hws]]. rewrite pj_fval_FS in Hpj. cbn [walk] in Hw.
-    apply (null_kws_valid P cst n _ _ Hnl). rewrite <- (rd_scalar_node sc 6 _ Hnl).
-    now apply (scalar_valid E EL sc P Hfmt cst (f_kind f) sx j 6 n).
+    destruct Hx as [sx [-> Hws]]. rewrite pj_fval_FS in Hpj. cbn [walk] in Hw. cbn [plain_in] in Hpl.
+    destruct (is_scalar_kind (f_kind f)) eqn:Hsk.
+    + rewrite (rd_nullable_node sc 6 _ Hsk).
+      apply (null_kws_valid P cst n _ _ Hsk). rewrite <- (rd_scalar_node sc 6 _ Hsk).
+      now apply (scalar_valid E EL sc P Hfmt cst (f_kind f) sx j 6 n).
+    + destruct (f_kind f) as [| | | | | | | | | | | | | | | tn0 | ctn] eqn:Ek; try discriminate Hsk; [|discriminate Hnl].
+      destruct sx; try discriminate Hws.
+      pose proof (enum_valid E sc P cst tn0 n0 j 6 n Hws Hw Hpl Hpj) as Hev.
+      destruct (find_enum (all_enums sc) tn0) as [e|] eqn:He.
+      * assert (Hin : enum_inhabited sc (KEnum tn0) = true).
+        { cbn [enum_inhabited]. rewrite He. destruct (e_values e) as [|v0 vs] eqn:Hvs; [|reflexivity].
+          cbn [scalar_issues] in Hw. rewrite He, Hvs in Hw. discriminate Hw. }
+        rewrite (rd_nullable_enum_node sc 6 tn0 e He Hin). apply null_enum_kws_valid.
+        now rewrite <- (rd_enum_node sc 6 tn0 e He).
+      * rewrite (rd_nullable_enum_missing sc 6 tn0 He). apply (null_kws_valid P cst n KString _ eq_refl).
+        now rewrite <- (rd_enum_missing sc 6 tn0 He).
   - destruct (OpenApi.is_msg_kind (f_kind f) && empty_null f) eqn:Eo; [|exact Hstrip].
     (* empty_behavior = NULL on a message field with a non-empty value: exactly the first branch of oneOf [T, null] *)
     apply andb_prop in Eo as [Hmk _].
@@ -537,13 +643,19 @@ Qed.
 
 (* the null of an unset nullable field *)
 Lemma nullable_null_entry mn f n :
-  c6_class_plain f = true -> is_nullable f = true ->
+  c6_class_plain f = true -> is_nullable f = true -> enum_inhabited sc (f_kind f) = true ->
   validates P cst (S n) (rd 6 (convert_field sc no_side mn f)) JVNull = VOk true.
 Proof.
-  intros Hc En. unfold c6_class_plain in Hc. apply andb_prop in Hc as [Hp Hnl].
+  intros Hc En Hinh. unfold c6_class_plain in Hc. apply andb_prop in Hc as [Hp Hnl].
   rewrite En in Hnl. cbn [negb orb] in Hnl. apply andb_prop in Hnl as [Es Hk].
-  rewrite (convert_field_plainish sc mn f Hp), En.
-  unfold singularish in Es. destruct (f_card f); try discriminate Es; rewrite (rd_nullable_node sc 6 _ Hk); now apply null_kws_null.
+  rewrite (convert_field_plainish_sing sc mn f Hp Es), En.
+  unfold nullable_kind in Hk. apply Bool.negb_true_iff in Hk.
+  destruct (is_scalar_kind (f_kind f)) eqn:Hsk.
+  - rewrite (rd_nullable_node sc 6 _ Hsk). now apply null_kws_null.
+  - destruct (f_kind f) as [| | | | | | | | | | | | | | | tn0 | ctn] eqn:Ek; try discriminate Hsk; [|discriminate Hk].
+    destruct (find_enum (all_enums sc) tn0) as [e|] eqn:He.
+    + rewrite (rd_nullable_enum_node sc 6 tn0 e He Hinh). apply null_enum_kws_null.
+    + rewrite (rd_nullable_enum_missing sc 6 tn0 He). now apply null_kws_null.
 Qed.
 Lemma wire_obj_cases es : (exists d, wire_jv (JObj es) = JVNum d) \/ (exists kv, wire_jv (JObj es) = JVObj kv).
 Proof.
@@ -565,9 +677,9 @@ Proof.
   destruct (singularish f) eqn:Es; [|now rewrite (convert_field_plainish_multi sc mn f Hp Es)].
   rewrite (convert_field_plainish_sing sc mn f Hp Es).
   destruct (is_nullable f) eqn:En.
-  - cbn [negb orb andb] in Hnl.
+  - cbn [negb orb andb] in Hnl. unfold nullable_kind in Hnl. apply Bool.negb_true_iff in Hnl.
     assert (Hx : exists sx, x = FS sx /\ wt_scalar sc (f_kind f) sx = true).
-    { apply (wt_nonmsg_scalar sc (f_kind f) x); [destruct (f_kind f); try reflexivity; discriminate Hnl|].
+    { apply (wt_nonmsg_scalar sc (f_kind f) x); [exact Hnl|].
       unfold wt_entry in Hwt. unfold singularish in Es.
       destruct (f_card f); try discriminate Es; destruct x; try discriminate Hwt; try exact Hwt; now apply andb_prop in Hwt as [Hwt _]. }
     destruct Hx as [sx [-> Hws]]. rewrite pj_fval_FS in Hpj. apply und_leaf. now apply (pj_scalar_leaf E EL sc (f_kind f) sx j).
@@ -857,7 +969,7 @@ Theorem spec_message_conforms : forall (E : ExtLib) (sc : schema) (P : vparams) 
   fprint_is_number E -> wire_formats_are_annotations P ->
   forallb plain_or_i64 (m_fields md) = true \/ codec_params P ->
   find_message (all_messages sc) ts_name = None -> str_eqb tn ts_name = false -> is_wkt_other tn = false ->
-  find_message (all_messages sc) tn = Some md -> c6_msg_ok md = true ->
+  find_message (all_messages sc) tn = Some md -> c6_msg_ok md = true -> nullable_enums_inhabited sc md = true ->
   wt sc (KMessage tn) (FM m) = true -> kids_plain sc md m = true ->
   defects_C06 sc no_side cs tn m = [] ->
   Mapping.to_json E sc tn m = ROk j ->
@@ -866,7 +978,7 @@ Theorem spec_message_conforms : forall (E : ExtLib) (sc : schema) (P : vparams) 
   (forall uf vf, existsb empty_null (m_fields md) = false \/ need (FM m) <= vf ->
      und P (doc_components reader12 cs) uf vf (body_schema tn) (wire_jv j) = 0).
 Proof.
-  intros E sc P cs tn md m j EL Hfmt Hcp Hts Htn Hwk Hfm Hmok Hwt Hkids Hd Hj.
+  intros E sc P cs tn md m j EL Hfmt Hcp Hts Htn Hwk Hfm Hmok Hinh Hwt Hkids Hd Hj.
   set (cst := doc_components reader12 cs).
   destruct (c6_msg_ok_facts md Hmok) as [Hfok [Hno Hnr]].
   rewrite wt_FM, Htn, Hwk, Hfm in Hwt. cbn [negb andb] in Hwt.
@@ -919,7 +1031,9 @@ Proof.
       exists f. split; [exact Hinf|]. split; [exact Hkey|]. intros n _.
       split; [|intros uf vf _; now apply und_leaf].
       change (wire_jv JNull) with JVNull.
-      apply (nullable_null_entry sc P cs (m_name md) f n (field_ok_nullable_plain f (Hfok f Hinf) Hnl) Hnl). }
+      apply (nullable_null_entry sc P cs (m_name md) f n (field_ok_nullable_plain f (Hfok f Hinf) Hnl) Hnl).
+      unfold nullable_enums_inhabited in Hinh. rewrite forallb_forall in Hinh. specialize (Hinh f Hinf).
+      rewrite Hnl in Hinh. exact Hinh. }
   assert (Hnf : is_jflt (JObj es) = false).
   { destruct es as [|[key j0] r]; [reflexivity|]. apply is_jflt_not_marker.
     destruct (Hent key j0 (or_introl eq_refl)) as [f [Hinf [-> _]]].
@@ -977,18 +1091,42 @@ Proof.
   unfold c6_msg_ok. rewrite (Hr H1), (Ho H2). cbn [negb]. rewrite !Bool.andb_true_r. now apply forallb_forall.
 Qed.
 
+(* a message without nullable fields (every owner but the nullable codec) *)
+Lemma no_nullable_inhabited sc md : existsb is_nullable (m_fields md) = false -> nullable_enums_inhabited sc md = true.
+Proof.
+  intros H. unfold nullable_enums_inhabited. apply forallb_forall. intros f Hf.
+  now rewrite (existsb_false_in _ _ f H Hf).
+Qed.
+Lemma own_not_nullable_inhabited sc md ft : owner_of sc md = Own ft -> ft <> FtNullable -> nullable_enums_inhabited sc md = true.
+Proof.
+  intros Hown Hne. destruct (own_inv sc md ft Hown) as [_ [Hn _]]. apply no_nullable_inhabited. now apply Hn.
+Qed.
+
 (* ---- nullable ------------------------------------------------------------------------------------------ *)
-(* nullable = true sits on singular / optional fields of scalar kinds other than enum (the generator admits
-   `optional` fields of every non-message kind, enums included: see the finding in part 6) *)
-Definition nullable_shape (md : message) : bool :=
-  forallb (fun f => negb (is_nullable f) || (singularish f && is_scalar_kind (f_kind f))) (m_fields md).
+(* nullable = true sits on singular / optional fields of non-message kinds - what the generator admits
+   (nullable.go:46-70: `optional` fields of every kind but a message, enums included; the schema of a nullable
+   enum lists null among its values since the repair of nullable-enum-null-not-in-enum, see part 6) - and the
+   enum of a nullable enum field declares a value (protoc refuses an enum without values; without one the
+   model publishes `enum: []`, which makeNullableSchema leaves empty: message_conforms_nullable_needs_inhabited) *)
+Definition nullable_shape (sc : schema) (md : message) : bool :=
+  forallb (fun f => negb (is_nullable f) || (singularish f && nullable_kind (f_kind f) && enum_inhabited sc (f_kind f))) (m_fields md).
 
 Lemma nulplain_c6 f : nulplain_field f = true ->
-  negb (is_nullable f) || (singularish f && is_scalar_kind (f_kind f)) = true ->
+  negb (is_nullable f) || (singularish f && nullable_kind (f_kind f)) = true ->
   c6_field_ok f = true /\ plain_or_i64 f = true.
 Proof.
   intros H Hs. unfold c6_field_ok, plain_or_i64, c6_class_plain, sc_plainish, is_flatten, i64_number. rewrite Hs.
   unfold nulplain_field in H. split_andb H. kill_none. cbn [is_none negb andb orb]. rewrite Bool.andb_false_r. split; reflexivity.
+Qed.
+Lemma nullable_shape_facts sc md : nullable_shape sc md = true ->
+  (forall f, In f (m_fields md) -> negb (is_nullable f) || (singularish f && nullable_kind (f_kind f)) = true) /\
+  nullable_enums_inhabited sc md = true.
+Proof.
+  unfold nullable_shape, nullable_enums_inhabited. intros H. rewrite forallb_forall in H. split.
+  - intros f Hf. specialize (H f Hf). destruct (is_nullable f); [|reflexivity]. cbn [negb orb] in H |- *.
+    now apply andb_prop in H as [H _].
+  - apply forallb_forall. intros f Hf. specialize (H f Hf). destruct (is_nullable f); [|reflexivity]. cbn [negb orb] in H |- *.
+    now apply andb_prop in H as [_ H].
 Qed.
 
 Theorem message_conforms_nullable : forall (E : ExtLib) (sc : schema) (P : vparams) (cs : list (str * ynode))
@@ -996,7 +1134,7 @@ Theorem message_conforms_nullable : forall (E : ExtLib) (sc : schema) (P : vpara
   fprint_is_number E -> wire_formats_are_annotations P ->
   find_message (all_messages sc) ts_name = None -> str_eqb tn ts_name = false -> is_wkt_other tn = false ->
   find_message (all_messages sc) tn = Some md -> owner_of sc md = Own FtNullable ->
-  nodup_str (map jn (m_fields md)) = true -> nulplain_msg md = true -> nullable_shape md = true ->
+  nodup_str (map jn (m_fields md)) = true -> nulplain_msg md = true -> nullable_shape sc md = true ->
   wt sc (KMessage tn) (FM m) = true -> kids_plain sc md m = true ->
   defects_C06 sc no_side cs tn m = [] ->
   (encode E sc tn m = ROk j \/ Mapping.to_json E sc tn m = ROk j) ->
@@ -1009,14 +1147,14 @@ Proof.
     by (apply (conforms_nullable E sc tn md m Htn Hwk Hfm Hown Hnd Hmd); exact Hkids).
   assert (Hj' : Mapping.to_json E sc tn m = ROk j) by (destruct Hj as [Hj|Hj]; [now rewrite <- Henc|exact Hj]).
   unfold nulplain_msg in Hmd. apply andb_prop in Hmd as [Hf _]. rewrite forallb_forall in Hf.
-  unfold nullable_shape in Hshape. rewrite forallb_forall in Hshape.
+  destruct (nullable_shape_facts sc md Hshape) as [Hshape' Hinh].
   assert (Hmok : c6_msg_ok md = true).
   { apply (c6_msg_ok_intro sc md FtNullable Hown); try discriminate. intros f Hin. now apply nulplain_c6; auto. }
   assert (Hcp : forallb plain_or_i64 (m_fields md) = true \/ codec_params P).
   { left. apply forallb_forall. intros f Hin. now apply nulplain_c6; auto. }
   assert (Hne : existsb empty_null (m_fields md) = false).
   { apply existsb_none. intros f Hin. specialize (Hf f Hin). unfold nulplain_field in Hf. unfold empty_null. split_andb Hf. kill_none. reflexivity. }
-  destruct (spec_message_conforms E sc P cs tn md m j EL Hfmt Hcp Hts Htn Hwk Hfm Hmok Hwt Hkids Hd Hj') as [H1 H2].
+  destruct (spec_message_conforms E sc P cs tn md m j EL Hfmt Hcp Hts Htn Hwk Hfm Hmok Hinh Hwt Hkids Hd Hj') as [H1 H2].
   split; [exact H1|]. intros uf vf. apply H2. now left.
 Qed.
 
@@ -1056,7 +1194,7 @@ Proof.
   { left. apply forallb_forall. intros f Hin. now apply i64plain_c6; auto. }
   assert (Hne : existsb empty_null (m_fields md) = false).
   { apply existsb_none. intros f Hin. now apply i64plain_c6; auto. }
-  destruct (spec_message_conforms E sc P cs tn md m j EL Hfmt Hcp Hts Htn Hwk Hfm Hmok Hwt Hkids Hd Hj') as [H1 H2].
+  destruct (spec_message_conforms E sc P cs tn md m j EL Hfmt Hcp Hts Htn Hwk Hfm Hmok (own_not_nullable_inhabited sc md _ Hown ltac:(discriminate)) Hwt Hkids Hd Hj') as [H1 H2].
   split; [exact H1|]. intros uf vf. apply H2. now left.
 Qed.
 
@@ -1109,7 +1247,7 @@ Proof.
   { apply (c6_msg_ok_intro sc md FtBytes Hown); try discriminate. intros f Hin. now apply bytesplain_c6; auto. }
   assert (Hne : existsb empty_null (m_fields md) = false).
   { apply existsb_none. intros f Hin. now apply bytesplain_c6; auto. }
-  destruct (spec_message_conforms E sc P cs tn md m j EL Hfmt (or_intror Hcpar) Hts Htn Hwk Hfm Hmok Hwt Hkids Hd Hj') as [H1 H2].
+  destruct (spec_message_conforms E sc P cs tn md m j EL Hfmt (or_intror Hcpar) Hts Htn Hwk Hfm Hmok (own_not_nullable_inhabited sc md _ Hown ltac:(discriminate)) Hwt Hkids Hd Hj') as [H1 H2].
   split; [exact H1|]. intros uf vf. apply H2. now left.
 Qed.
 
@@ -1177,7 +1315,7 @@ Proof.
   { apply (c6_msg_ok_intro sc md FtTs Hown); try discriminate. intros f Hin. now apply Hall. }
   assert (Hne : existsb empty_null (m_fields md) = false).
   { apply existsb_none. intros f Hin. now apply Hall. }
-  destruct (spec_message_conforms E sc P cs tn md m j EL Hfmt (or_intror Hcpar) Hts Htn Hwk Hfm Hmok Hwt Hkids Hd Hj') as [H1 H2].
+  destruct (spec_message_conforms E sc P cs tn md m j EL Hfmt (or_intror Hcpar) Hts Htn Hwk Hfm Hmok (own_not_nullable_inhabited sc md _ Hown ltac:(discriminate)) Hwt Hkids Hd Hj') as [H1 H2].
   split; [exact H1|]. intros uf vf. apply H2. now left.
 Qed.
 
@@ -1214,7 +1352,7 @@ Proof.
   { apply (c6_msg_ok_intro sc md FtEmpty Hown); try discriminate. intros f Hin. now apply empplain_c6; auto. }
   assert (Hcp : forallb plain_or_i64 (m_fields md) = true \/ codec_params P).
   { left. apply forallb_forall. intros f Hin. now apply empplain_c6; auto. }
-  exact (spec_message_conforms E sc P cs tn md m j EL Hfmt Hcp Hts Htn Hwk Hfm Hmok Hwt Hkids Hd Hj').
+  exact (spec_message_conforms E sc P cs tn md m j EL Hfmt Hcp Hts Htn Hwk Hfm Hmok (own_not_nullable_inhabited sc md _ Hown ltac:(discriminate)) Hwt Hkids Hd Hj').
 Qed.
 
 (* ================================================================================================ *)
@@ -1230,6 +1368,13 @@ Definition k6rpc (n : string) : method :=
 Definition k6_color : enum :=
   {| e_name := k6q "Color"; e_values := [ {| ev_name := s "COLOR_UNSPECIFIED"; ev_number := 0; ev_custom := None |};
                                           {| ev_name := s "COLOR_RED"; ev_number := 1; ev_custom := None |} ] |}.
+
+(* an enum with enum_value custom strings, and one without values (refused by protoc; the corner the side
+   condition enum_inhabited excludes) *)
+Definition k6_shade : enum :=
+  {| e_name := k6q "Shade"; e_values := [ {| ev_name := s "SHADE_UNSPECIFIED"; ev_number := 0; ev_custom := Some (s "none") |};
+                                          {| ev_name := s "SHADE_DARK"; ev_number := 1; ev_custom := Some (s "dark") |} ] |}.
+Definition k6_void : enum := {| e_name := k6q "Void"; e_values := [] |}.
 
 Definition k6_leaf : message := k6msg "Leaf" [fld "a" 1 KString Singular; fld "n" 2 KInt64 Singular].
 (* nullable: optional scalars of several kinds, next to un-annotated fields *)
@@ -1256,20 +1401,28 @@ Definition k6_emp : message :=
   k6msg "Emp" [set_empty EBPreserve (fld "keep_it" 1 (K6 "Leaf") Singular); set_empty EBNull (fld "nul_it" 2 (K6 "Leaf") Singular);
                set_empty EBNull (fld "nul_full" 3 (K6 "Leaf") Singular); set_empty EBOmit (fld "omit_it" 4 (K6 "Leaf") Singular);
                set_empty EBNull (fld "nul_at" 5 TS Singular); fld "id" 6 KString Singular].
-(* outside the side condition of the nullable theorem *)
-Definition k6_nulenum : message :=
-  k6msg "NulEnum" [set_nullable (fld "color" 1 (KEnum (k6q "Color")) Optional); fld "id" 2 KString Singular].
+(* nullable on an optional enum field: inside the nullable theorem since the repair of nullable-enum-null-not-in-enum *)
+Definition k6_color_field : field := set_nullable (fld "color" 1 (KEnum (k6q "Color")) Optional).
+Definition k6_nulenum : message := k6msg "NulEnum" [k6_color_field; fld "id" 2 KString Singular].
+(* ... with enum_value custom strings, and with enum_encoding = NUMBER: the schemas makeNullableSchema extends likewise *)
+Definition k6_shade_field : field := set_nullable (fld "shade" 1 (KEnum (k6q "Shade")) Optional).
+Definition k6_colornum_field : field := set_nullable (set_enumnum (fld "color_num" 2 (KEnum (k6q "Color")) Optional)).
+Definition k6_nulenum2 : message := k6msg "NulEnum2" [k6_shade_field; k6_colornum_field; fld "id" 3 KString Singular].
+(* outside the side conditions of the nullable theorem *)
+Definition k6_nulvoid : message :=
+  k6msg "NulVoid" [set_nullable (fld "void" 1 (KEnum (k6q "Void")) Optional); fld "id" 2 KString Singular].
 Definition k6_nulmsg : message := k6msg "NulMsg" [set_nullable (fld "leaf" 1 (K6 "Leaf") Optional); fld "id" 2 KString Singular].
 Definition k6_nulrep : message := k6msg "NulRep" [set_nullable (fld "tags" 1 KString Repeated); fld "id" 2 KString Singular].
 Definition k6_messages : list message :=
-  [k6_leaf; k6_nul; k6_nums; k6_blob; k6_times; k6_emp; k6_nulenum; k6_nulmsg; k6_nulrep].
+  [k6_leaf; k6_nul; k6_nums; k6_blob; k6_times; k6_emp; k6_nulenum; k6_nulmsg; k6_nulrep; k6_nulenum2; k6_nulvoid].
 
 Definition k6_service : service :=
   {| sv_name := s "Svc"; sv_base := s "/k"; sv_headers := [];
-     sv_methods := [k6rpc "Nul"; k6rpc "Nums"; k6rpc "Blob"; k6rpc "Times"; k6rpc "Emp"; k6rpc "NulEnum"; k6rpc "NulMsg"; k6rpc "NulRep"] |}.
+     sv_methods := [k6rpc "Nul"; k6rpc "Nums"; k6rpc "Blob"; k6rpc "Times"; k6rpc "Emp"; k6rpc "NulEnum"; k6rpc "NulMsg"; k6rpc "NulRep";
+                    k6rpc "NulEnum2"; k6rpc "NulVoid"] |}.
 Definition k6s : schema :=
   [ {| fl_path := s "k/a.proto"; fl_package := s "k.v1"; fl_gopkg := s "k"; fl_generate := true;
-       fl_messages := k6_messages; fl_enums := [k6_color]; fl_services := [k6_service] |} ].
+       fl_messages := k6_messages; fl_enums := [k6_color; k6_shade; k6_void]; fl_services := [k6_service] |} ].
 Definition k6doc : c06_doc := Eval vm_compute in prepare_C06 k6s no_side 0 0.
 
 (* the hypotheses every codec theorem shares, on the document of service Svc *)
@@ -1299,7 +1452,7 @@ Definition nul_json : json :=
 
 Example message_conforms_nullable_nonvacuous :
   k6_common (k6q "Nul") k6_nul nul_value /\
-  owner_of k6s k6_nul = Own FtNullable /\ nulplain_msg k6_nul = true /\ nullable_shape k6_nul = true /\
+  owner_of k6s k6_nul = Own FtNullable /\ nulplain_msg k6_nul = true /\ nullable_shape k6s k6_nul = true /\
   kids_plain k6s k6_nul nul_value = true /\
   encode Ex k6s (k6q "Nul") nul_value = ROk nul_json /\
   (forall fuel, (need (FM nul_value) <= fuel)%nat ->
@@ -1310,7 +1463,7 @@ Proof.
   assert (Hc : k6_common (k6q "Nul") k6_nul nul_value) by (vm_compute; repeat split; reflexivity).
   assert (Hown : owner_of k6s k6_nul = Own FtNullable) by (vm_compute; reflexivity).
   assert (Hpl : nulplain_msg k6_nul = true) by (vm_compute; reflexivity).
-  assert (Hsh : nullable_shape k6_nul = true) by (vm_compute; reflexivity).
+  assert (Hsh : nullable_shape k6s k6_nul = true) by (vm_compute; reflexivity).
   assert (Hk : kids_plain k6s k6_nul nul_value = true) by (vm_compute; reflexivity).
   assert (Henc : encode Ex k6s (k6q "Nul") nul_value = ROk nul_json) by (vm_compute; reflexivity).
   assert (Hv : k6_verdict (k6q "Nul") nul_value = ROk (nul_json, VOk true, 0)) by (vm_compute; reflexivity).
@@ -1447,26 +1600,98 @@ Proof.
   - intros uf vf Hvf. apply H2. now right.
 Qed.
 
+(* ---- the repaired finding: nullable on an optional enum field ---------------------------------------------------------- *)
+(* `optional Color color = 1 [(sebuf.http.nullable) = true]` passes annotations.ValidateNullableAnnotation
+   (nullable.go:46-70 refuses only non-optional and message fields); httpgen/nullable.go:147-156 sends "color": null when
+   the field is unset.  Before the repair openapiv3/types.go makeNullableSchema appended "null" to `type` and left `enum`
+   as it was: {type: [string, null], enum: [COLOR_UNSPECIFIED, COLOR_RED]} rejected that null (FINDING
+   nullable-enum-null-not-in-enum, found by the proof of message_conforms_nullable, whose side condition then excluded enum
+   kinds).  The repaired builder (types.go:101-105) appends a !!null member to every non-empty `enum`; the side condition is
+   gone and the message is an instance of the theorem, with the field unset and with it set. *)
+Definition nulenum_unset : mval := [(s "id", vstr "x")].
+Definition nulenum_unset_json : json := JObj [(s "id", JStr (s "x")); (s "color", JNull)].
+Definition nulenum_set : mval := [(s "color", FS (VEnum 1)); (s "id", vstr "x")].
+Definition nulenum_set_json : json := JObj [(s "color", JStr (s "COLOR_RED")); (s "id", JStr (s "x"))].
+
+Example message_conforms_nullable_enum_nonvacuous :
+  owner_of k6s k6_nulenum = Own FtNullable /\ nulplain_msg k6_nulenum = true /\ nullable_shape k6s k6_nulenum = true /\
+  (k6_common (k6q "NulEnum") k6_nulenum nulenum_unset /\ kids_plain k6s k6_nulenum nulenum_unset = true /\
+   encode Ex k6s (k6q "NulEnum") nulenum_unset = ROk nulenum_unset_json /\
+   (forall fuel, (need (FM nulenum_unset) <= fuel)%nat ->
+      validates P06 (cd_tcs k6doc) fuel (body_schema (k6q "NulEnum")) (wire_jv nulenum_unset_json) = VOk true) /\
+   (forall uf vf, und P06 (cd_tcs k6doc) uf vf (body_schema (k6q "NulEnum")) (wire_jv nulenum_unset_json) = 0%nat) /\
+   k6_verdict (k6q "NulEnum") nulenum_unset = ROk (nulenum_unset_json, VOk true, 0)) /\
+  (k6_common (k6q "NulEnum") k6_nulenum nulenum_set /\ kids_plain k6s k6_nulenum nulenum_set = true /\
+   encode Ex k6s (k6q "NulEnum") nulenum_set = ROk nulenum_set_json /\
+   (forall fuel, (need (FM nulenum_set) <= fuel)%nat ->
+      validates P06 (cd_tcs k6doc) fuel (body_schema (k6q "NulEnum")) (wire_jv nulenum_set_json) = VOk true) /\
+   (forall uf vf, und P06 (cd_tcs k6doc) uf vf (body_schema (k6q "NulEnum")) (wire_jv nulenum_set_json) = 0%nat) /\
+   k6_verdict (k6q "NulEnum") nulenum_set = ROk (nulenum_set_json, VOk true, 0)).
+Proof.
+  assert (Hown : owner_of k6s k6_nulenum = Own FtNullable) by (vm_compute; reflexivity).
+  assert (Hpl : nulplain_msg k6_nulenum = true) by (vm_compute; reflexivity).
+  assert (Hsh : nullable_shape k6s k6_nulenum = true) by (vm_compute; reflexivity).
+  repeat (split; [assumption|]).
+  assert (Hinst : forall m j, k6_common (k6q "NulEnum") k6_nulenum m -> kids_plain k6s k6_nulenum m = true ->
+            encode Ex k6s (k6q "NulEnum") m = ROk j ->
+            (forall fuel, (need (FM m) <= fuel)%nat ->
+               validates P06 (cd_tcs k6doc) fuel (body_schema (k6q "NulEnum")) (wire_jv j) = VOk true) /\
+            (forall uf vf, und P06 (cd_tcs k6doc) uf vf (body_schema (k6q "NulEnum")) (wire_jv j) = 0%nat)).
+  { intros m j Hc Hk Henc. destruct Hc as [_ [Htcs [Hts [Htn [Hwk [Hfm [Hnd [Hwt Hd]]]]]]]]. rewrite Htcs.
+    exact (message_conforms_nullable Ex k6s P06 (cd_cs k6doc) (k6q "NulEnum") k6_nulenum m j Ex_fprint_is_number P06_formats
+             Hts Htn Hwk Hfm Hown Hnd Hpl Hsh Hwt Hk Hd (or_introl Henc)). }
+  split.
+  - assert (Hc : k6_common (k6q "NulEnum") k6_nulenum nulenum_unset) by (vm_compute; repeat split; reflexivity).
+    assert (Hk : kids_plain k6s k6_nulenum nulenum_unset = true) by (vm_compute; reflexivity).
+    assert (Henc : encode Ex k6s (k6q "NulEnum") nulenum_unset = ROk nulenum_unset_json) by (vm_compute; reflexivity).
+    destruct (Hinst _ _ Hc Hk Henc) as [H1 H2].
+    repeat (split; [assumption|]). vm_compute. reflexivity.
+  - assert (Hc : k6_common (k6q "NulEnum") k6_nulenum nulenum_set) by (vm_compute; repeat split; reflexivity).
+    assert (Hk : kids_plain k6s k6_nulenum nulenum_set = true) by (vm_compute; reflexivity).
+    assert (Henc : encode Ex k6s (k6q "NulEnum") nulenum_set = ROk nulenum_set_json) by (vm_compute; reflexivity).
+    destruct (Hinst _ _ Hc Hk Henc) as [H1 H2].
+    repeat (split; [assumption|]). vm_compute. reflexivity.
+Qed.
+
+(* what is published and what it admits: {type: [string, null], enum: [names..., null]}; the null and each name validate,
+   any other string does not.  Likewise with enum_value custom strings and with enum_encoding = NUMBER (a schema with an
+   `enum` keyword whatever its members): null joins the list. *)
+Example nullable_enum_null_validates :
+  let sch := typed (convert_field k6s no_side (k6q "NulEnum") k6_color_field) in
+  convert_field k6s no_side (k6q "NulEnum") k6_color_field
+    = YMap [(s "type", YSeq [YGoStr (s "string"); YGoStr (s "null")]);
+            (s "enum", YSeq [YPlain (s "COLOR_UNSPECIFIED"); YPlain (s "COLOR_RED"); YNull])] /\
+  sch = SObj [KwType [TString; TNull]; KwEnum [JVStr (s "COLOR_UNSPECIFIED"); JVStr (s "COLOR_RED"); JVNull]] /\
+  schema_of_jv schema_fuel (denote reader11 (convert_field k6s no_side (k6q "NulEnum") k6_color_field)) = sch /\
+  validates P06 (cd_tcs k6doc) c06_fuel sch JVNull = VOk true /\
+  validates P06 (cd_tcs k6doc) c06_fuel sch (JVStr (s "COLOR_UNSPECIFIED")) = VOk true /\
+  validates P06 (cd_tcs k6doc) c06_fuel sch (JVStr (s "COLOR_RED")) = VOk true /\
+  validates P06 (cd_tcs k6doc) c06_fuel sch (JVStr (s "COLOR_BLUE")) = VOk false /\
+  defects_C06 k6s no_side (cd_cs k6doc) (k6q "NulEnum") nulenum_unset = [] /\
+  validates P06 (cd_tcs k6doc) c06_fuel (body_schema (k6q "NulEnum")) (wire_jv nulenum_unset_json) = VOk true /\
+  typed (convert_field k6s no_side (k6q "NulEnum2") k6_shade_field)
+    = SObj [KwType [TString; TNull]; KwEnum [JVStr (s "none"); JVStr (s "dark"); JVNull]] /\
+  typed (convert_field k6s no_side (k6q "NulEnum2") k6_colornum_field)
+    = SObj [KwType [TInteger; TNull]; KwEnum [JVNum (dec_of_Z 0); JVNum (dec_of_Z 1); JVNull]] /\
+  k6_verdict (k6q "NulEnum2") [(s "id", vstr "x")]
+    = ROk (JObj [(s "id", JStr (s "x")); (s "shade", JNull); (s "colorNum", JNull)], VOk true, 0).
+Proof. vm_compute. repeat split; reflexivity. Qed.
+
 (* ---- side conditions that cannot be dropped --------------------------------------------------------------------------- *)
-(* FINDING (found by this proof; since tagged D6NullableEnum and listed in KNOWN_FINDINGS.jsonl, confirmed on the emitted document).  `optional Color color = 1 [(sebuf.http.nullable) = true]` passes
-   annotations.ValidateNullableAnnotation (nullable.go:46-70 refuses only non-optional and message fields).
-   openapiv3/types.go:81-100 makeNullableSchema appends "null" to `type` and leaves `enum` as it is, so the property is
-   published as {type: [string, null], enum: [COLOR_UNSPECIFIED, COLOR_RED]}; httpgen/nullable.go:147-156 sends
-   "color": null when the field is unset; null is not among the enum values and the instance is rejected.  Every
-   other hypothesis of message_conforms_nullable holds; with the field set the same body validates. *)
-Example message_conforms_nullable_needs_nonenum :
+(* an enum WITHOUT values (protoc and protodesc refuse it: "enums must contain at least one value"; no real schema has
+   one): the model publishes `enum: []`, makeNullableSchema extends only a non-empty list (types.go:103), and the null of
+   the unset field matches no member.  Every other hypothesis of message_conforms_nullable holds. *)
+Example message_conforms_nullable_needs_inhabited :
   let m := [(s "id", vstr "x")] in
-  let j := JObj [(s "id", JStr (s "x")); (s "color", JNull)] in
-  defects_C06 k6s no_side (cd_cs k6doc) (k6q "NulEnum") m = [D6NullableEnum] /\
-  wt k6s (KMessage (k6q "NulEnum")) (FM m) = true /\
-  owner_of k6s k6_nulenum = Own FtNullable /\ nulplain_msg k6_nulenum = true /\ kids_plain k6s k6_nulenum m = true /\
-  nullable_shape k6_nulenum = false /\
-  encode Ex k6s (k6q "NulEnum") m = ROk j /\ Mapping.to_json Ex k6s (k6q "NulEnum") m = ROk j /\
-  typed (convert_field k6s no_side (k6q "NulEnum") (set_nullable (fld "color" 1 (KEnum (k6q "Color")) Optional)))
-    = SObj [KwType [TString; TNull]; KwEnum [JVStr (s "COLOR_UNSPECIFIED"); JVStr (s "COLOR_RED")]] /\
-  validates P06 (cd_tcs k6doc) c06_fuel (body_schema (k6q "NulEnum")) (wire_jv j) = VOk false /\
-  k6_verdict (k6q "NulEnum") [(s "color", FS (VEnum 1)); (s "id", vstr "x")]
-    = ROk (JObj [(s "color", JStr (s "COLOR_RED")); (s "id", JStr (s "x"))], VOk true, 0).
+  let j := JObj [(s "id", JStr (s "x")); (s "void", JNull)] in
+  k6_common (k6q "NulVoid") k6_nulvoid m /\
+  owner_of k6s k6_nulvoid = Own FtNullable /\ nulplain_msg k6_nulvoid = true /\ kids_plain k6s k6_nulvoid m = true /\
+  nullable_shape k6s k6_nulvoid = false /\ nullable_enums_inhabited k6s k6_nulvoid = false /\
+  forallb (fun f => negb (is_nullable f) || (singularish f && nullable_kind (f_kind f))) (m_fields k6_nulvoid) = true /\
+  encode Ex k6s (k6q "NulVoid") m = ROk j /\
+  typed (convert_field k6s no_side (k6q "NulVoid") (set_nullable (fld "void" 1 (KEnum (k6q "Void")) Optional)))
+    = SObj [KwType [TString; TNull]; KwEnum []] /\
+  validates P06 (cd_tcs k6doc) c06_fuel (body_schema (k6q "NulVoid")) (wire_jv j) = VOk false.
 Proof. vm_compute. repeat split; reflexivity. Qed.
 
 (* nullable on a message field: makeNullableSchema finds no `type` beside the $ref and changes nothing, null is rejected by
@@ -1476,7 +1701,7 @@ Example message_conforms_nullable_needs_nonmessage :
   let j := JObj [(s "id", JStr (s "x")); (s "leaf", JNull)] in
   k6_common (k6q "NulMsg") k6_nulmsg m /\
   owner_of k6s k6_nulmsg = Own FtNullable /\ nulplain_msg k6_nulmsg = true /\ kids_plain k6s k6_nulmsg m = true /\
-  nullable_shape k6_nulmsg = false /\
+  nullable_shape k6s k6_nulmsg = false /\
   encode Ex k6s (k6q "NulMsg") m = ROk j /\
   validates P06 (cd_tcs k6doc) c06_fuel (body_schema (k6q "NulMsg")) (wire_jv j) = VOk false.
 Proof. vm_compute. repeat split; reflexivity. Qed.
@@ -1488,7 +1713,7 @@ Example message_conforms_nullable_needs_singular :
   let j := JObj [(s "id", JStr (s "x")); (s "tags", JNull)] in
   k6_common (k6q "NulRep") k6_nulrep m /\
   owner_of k6s k6_nulrep = Own FtNullable /\ nulplain_msg k6_nulrep = true /\ kids_plain k6s k6_nulrep m = true /\
-  nullable_shape k6_nulrep = false /\
+  nullable_shape k6s k6_nulrep = false /\
   encode Ex k6s (k6q "NulRep") m = ROk j /\
   validates P06 (cd_tcs k6doc) c06_fuel (body_schema (k6q "NulRep")) (wire_jv j) = VOk false.
 Proof. vm_compute. repeat split; reflexivity. Qed.
